@@ -81,7 +81,14 @@ def _case(draw, allow_queued_behind_slow=True, trap=False):
             t["guard"] = {"k": "const", "val": False}
         elif d.chance(20):
             t["guard"] = {"k": "const", "val": True}
-        afters.append([key, [t]])
+        cands = [t]
+        if not trap and d.chance(35):
+            # a candidate list under one delay key: 1-2 guarded candidates ahead of the one drawn above; the
+            # delay is still ONE delayed transition (first enabled candidate wins, once per activation)
+            for _ in range(d.int(1, 2)):
+                tg = d.pick([["b"], ["c"], ["x"], None, None])
+                cands.insert(0, {"target": tg, "actions": [], "guard": {"k": "const", "val": d.chance(25)}})
+        afters.append([key, cands])
     a = {"key": "a", "kind": "atomic", "after": afters, "on": [
         ["GO", [{"target": ["x"], "actions": []}]],
         ["RE", [{"target": ["a"], "reenter": True, "actions": []}]],
@@ -316,7 +323,10 @@ def check_case(case) -> CaseResult:
                 res.violate(f"{engine}|after-fired-before-delay-elapsed|{shape}",
                             {"state": sid, "timer": str(ti.key), "delay_s": D_, "t_in": a["t_in"], "fired_at": recv_t, "elapsed": round(elapsed, 6)})
                 continue
-            k = str(ti.key) + ":" + str(ti.index)
+            k = str(ti.key)   # one delayed transition per delay key, however many candidates it lists
+            earlier = [t2 for t2 in timers.get(sid, []) if str(t2.key) == str(ti.key) and t2.index < ti.index]
+            if any(t2.guard is None or (t2.guard.get("k") == "const" and t2.guard["val"]) for t2 in earlier):
+                res.violate(f"{engine}|after-candidate-behind-an-enabled-one-fired", {"state": sid, "timer": str(ti.key), "index": ti.index})
             epochs = [a["t_in"] + D_ - D_] + [e2 + _delay_ms(spec, ti.key, d2) / 1000.0 - D_ for e2, d2 in a.get("epochs", [])]
             # (each origin is shifted so that origin + D_ is that origin's own deadline)
             prev = a["fired"].get(k, [])
@@ -342,16 +352,20 @@ def check_case(case) -> CaseResult:
     # ---- liveness: a state that outlived a deadline must have fired
     horizon = stop_time if stop_time is not None else t_end
     for a in history_acts:
+        seen_keys = set()
         for t in timers.get(a["state"], []):
             if t.guard is not None and t.guard.get("k") == "const" and not t.guard["val"]:
                 continue
+            if str(t.key) in seen_keys:
+                continue    # a later candidate of a delay key that already has an enabled one
+            seen_keys.add(str(t.key))
             D_ = _delay_ms(spec, t.key, a["d"]) / 1000.0
             due = max([a["t_in"] + D_] + [e2 + _delay_ms(spec, t.key, d2) / 1000.0 for e2, d2 in a.get("epochs", [])])
             lim = busy_end(due)
             end = a["t_out"] if a["t_out"] is not None else horizon
             if run.steps[-1].status not in ("running", "stopped") and a["t_out"] is None:
                 continue
-            k = str(t.key) + ":" + str(t.index)
+            k = str(t.key)
             if end > lim + EPS and not a["fired"].get(k):
                 # was the machine still running at `lim`?
                 if stop_time is not None and lim >= stop_time - EPS:
